@@ -1,14 +1,18 @@
 /-
 Property theorems for Connector (all grid sizes `n`, all agent counts `k`, all states).  Helper lemmas and
-proofs live in Env/Connector/Lemmas.lean.  The only hypothesis on the state is that its grid is `n × n`
-(`Grid.shaped s.grid n n`) and, where an agent's own cells are rewritten, that its stored position lies in
-the grid; joint actions are in-spec (`0 ≤ a ≤ 4` for every agent).  Not proved (see the report): the full
-refinement `stepAgents = stepAgentsL2` (max-join + correction mask = "highest id wins") and the preservation
-of `Consistent` / `Feasible` by `step`; both are evaluated by the driver on every implementation transition
-(`l2_agrees`, `consistent`, `feasible`).
+proofs live in Env/Connector/{Lemmas,GridLemmas,ConsLemmas,RefineLemmas,StepLemmas,CountLemmas,RouteLemmas,
+FeasLemmas,SolvableLemmas}.lean.  The first group of theorems only needs the grid to be `n × n`
+(`Grid.shaped s.grid n n`) and, where an agent's own cells are rewritten, its stored position inside the grid;
+joint actions are in-spec (`0 ≤ a ≤ 4` for every agent).  The second group (appended sections at the end of the
+file) works from `Consistent n k s` and an in-spec joint action of length `k > 0`: the full refinement
+`stepAgents = stepAgentsL2` / `step = stepL2` (max-join + correction mask = "highest id wins"), the preservation
+of `Consistent` and `Feasible` by `step`, and the meaning of the `walk_board_solvable` certificate.  The same
+predicates are also evaluated by the driver on every implementation transition (`l2_agrees`, `consistent`,
+`feasible`, `walk_board_solvable`).
 -/
 import JumanjiModel.Env.Connector.Lemmas
 import JumanjiModel.Env.Connector.Bounds
+import JumanjiModel.Env.Connector.SolvableLemmas
 open Jm Jx Connector
 
 namespace Props.C04
@@ -186,3 +190,128 @@ example : (step ⟨3, 2, 1, 1, -3/100⟩ ⟨[[2, 0, 3], [0, 0, 0], [5, 0, 6]], 0
 example : Consistent 3 2 ⟨[[2, 0, 3], [0, 0, 0], [5, 0, 6]], 0,
     [⟨0, (0, 0), (0, 2), (0, 0)⟩, ⟨1, (2, 0), (2, 2), (2, 0)⟩]⟩ := by decide
 end Props.C01
+
+/-! ## Theorems from `Consistent` (proof completion) -/
+
+namespace Props.C09
+/-- FULL REFINEMENT, agents and grid: on a consistent state (grid `n × n`, `k > 0` agents numbered `0..k-1`, each
+with exactly one head cell at `agents.position`, …) and an in-spec joint action (one action `0..4` per agent) the
+simultaneous step of the implementation — every agent steps on its own copy of the grid, the copies are joined
+with `max`, agents whose head disappeared are reset by the correction mask — equals the rule-level step: every
+agent proposes the cell of a legal move, the highest id asking for a cell gets it, the winners' moves are applied
+one after the other -/
+theorem connector_step_agents_eq_rules (n k : Nat) (s : State) (acts : List Int) (hc : Consistent n k s)
+    (hk : 0 < k) (hlen : acts.length = k) (hspec : ∀ a ∈ acts, 0 ≤ a ∧ a ≤ 4) :
+    stepAgents k s acts = stepAgentsL2 n s acts :=
+  Connector.stepAgents_eq_L2 ⟨(Connector.consistent_iff n k s).1 hc, hk, hlen, hspec⟩
+
+/-- FULL REFINEMENT, the whole step: successor state, reward, discount, step type and observation of `step`
+(L1, the transliteration) are those of `stepL2` (the rules) -/
+theorem connector_step_eq_rules (cfg : Cfg) (s : State) (acts : List Int) (hc : Consistent cfg.n cfg.k s)
+    (hk : 0 < cfg.k) (hlen : acts.length = cfg.k) (hspec : ∀ a ∈ acts, 0 ≤ a ∧ a ≤ 4) :
+    step cfg s acts = stepL2 cfg s acts := Connector.step_eq_stepL2 cfg s acts hc hk hlen hspec
+
+/-- the hypotheses are satisfiable (the three-way contest above) … -/
+example : Consistent 4 3 ⟨[[0, 2, 0, 0], [5, 0, 8, 0], [0, 0, 0, 0], [3, 6, 9, 0]], 0,
+    [⟨0, (0, 1), (3, 0), (0, 1)⟩, ⟨1, (1, 0), (3, 1), (1, 0)⟩, ⟨2, (1, 2), (3, 2), (1, 2)⟩]⟩ := by decide
+
+/-- … and `0 < k` is needed: with no agents `jnp.max` over an empty stack has no `n × n` result in the model
+(`joinGrids [] = []`) while the rules leave the grid alone (the driver rejects `num_agents = 0`) -/
+example : Consistent 1 0 ⟨[[0]], 0, []⟩ ∧ stepAgents 0 ⟨[[0]], 0, []⟩ [] ≠ stepAgentsL2 1 ⟨[[0]], 0, []⟩ [] := by
+  decide
+end Props.C09
+
+namespace Props.C07
+/-- what `Consistent` (the Boolean recomputed from the raw arrays by the driver) says, cell by cell: the grid is
+`n × n`, there are `k` agents, agent number `i` has id `i`, its position / target / start lie inside the grid, its
+head value `2+3i` is at `agents.position` and nowhere else, its target value `3+3i` is at `agents.target` and
+nowhere else unless it is connected (then nowhere), its path value `1+3i` occurs nowhere while it has not moved
+and is at its start cell otherwise; every cell holds a value in `0..3k`; the step count is not negative.  Since
+each cell holds one value, cells of different agents are disjoint. -/
+theorem connector_consistent_iff (n k : Nat) (s : State) : Consistent n k s ↔ Connector.Cons n k s :=
+  Connector.consistent_iff n k s
+
+/-- ANY in-spec joint action — legal or not, LAST step or not — leads from a consistent state to a consistent
+state (the hypothesis "the step is not LAST" of the plan is not needed) -/
+theorem connector_step_consistent (cfg : Cfg) (s : State) (acts : List Int) (hc : Consistent cfg.n cfg.k s)
+    (hk : 0 < cfg.k) (hlen : acts.length = cfg.k) (hspec : ∀ a ∈ acts, 0 ≤ a ∧ a ≤ 4) :
+    Consistent cfg.n cfg.k (step cfg s acts).1 := Connector.step_consistent cfg s acts hc hk hlen hspec
+
+/-- the generator post-condition checked on every reset state (`freshB`: consistent, step count 0, nobody has
+moved, starts and targets are `2k` different cells, no other cell occupied) gives a consistent state -/
+theorem connector_reset_consistent (n k : Nat) (s : State) (h : freshB n k s = true) : Consistent n k s :=
+  Connector.fresh_consistent n k s h
+
+example : freshB 3 2 ⟨[[2, 0, 3], [0, 0, 0], [5, 0, 6]], 0,
+    [⟨0, (0, 0), (0, 2), (0, 0)⟩, ⟨1, (2, 0), (2, 2), (2, 0)⟩]⟩ = true := by decide
+end Props.C07
+
+namespace Props.C06
+/-- ANY in-spec joint action (in particular every mask-respecting one; an illegal move is a no-op by C05) leads
+from a feasible state to a feasible state: the state stays consistent and every agent's path cells still form a
+route from its start to its head that uses every path cell -/
+theorem connector_step_feasible (cfg : Cfg) (s : State) (acts : List Int) (hf : Feasible cfg.n cfg.k s)
+    (hk : 0 < cfg.k) (hlen : acts.length = cfg.k) (hspec : ∀ a ∈ acts, 0 ≤ a ∧ a ≤ 4) :
+    Feasible cfg.n cfg.k (step cfg s acts).1 := Connector.step_feasible cfg s acts hf hk hlen hspec
+
+/-- whole episodes: every state an episode passes through (the states of `traceL2`, which by the refinement
+`step = stepL2` are the states of the implementation model) from a feasible state under in-spec joint actions is
+feasible -/
+theorem connector_feasible_along (cfg : Cfg) (hk : 0 < cfg.k) (actss : List (List Int))
+    (hspec : ∀ acts ∈ actss, acts.length = cfg.k ∧ ∀ a ∈ acts, 0 ≤ a ∧ a ≤ 4) (s0 : State)
+    (hf : Feasible cfg.n cfg.k s0) : ∀ s ∈ traceL2 cfg s0 actss, Feasible cfg.n cfg.k s :=
+  Connector.feasible_along cfg hk actss hspec s0 hf
+
+/-- a reset state satisfying the generator post-condition is feasible (there are no path cells yet) -/
+theorem connector_reset_feasible (n k : Nat) (s : State) (h : freshB n k s = true) : Feasible n k s :=
+  Connector.fresh_feasible n k s h
+
+/-- what `Feasible` means: agent number `i` owns a chain of 4-adjacent, pairwise different cells inside the grid
+from its start to its head, every cell of which holds a value of agent `i` … -/
+theorem connector_feasible_routes (n k : Nat) (s : State) (hf : Feasible n k s) (i : Nat) (ag : Agent)
+    (hag : s.agents[i]? = some ag) : ∃ r, Connector.GoodRoute n s.grid i ag.start ag.position r :=
+  Connector.feasible_routes hf hag
+
+/-- … and such chains of different agents never share a cell -/
+theorem connector_routes_disjoint (n : Nat) (g : Grid Int) (i j : Nat) (hij : i ≠ j) (a b a' b' : Pos)
+    (r r' : List Pos) (h : Connector.GoodRoute n g i a b r) (h' : Connector.GoodRoute n g j a' b' r') :
+    ∀ c, c ∈ r → c ∉ r' := Connector.goodRoute_disjoint hij h h'
+
+/-- an episode that ends by completion (every agent connected) in a feasible state ends in a complete solution:
+`solutionB` holds and every agent owns a chain from its start to its target -/
+theorem connector_complete_is_solution (n k : Nat) (s : State) (hf : Feasible n k s)
+    (hall : ∀ ag ∈ s.agents, isConnected ag) :
+    solutionB n k s = true ∧
+      ∀ (i : Nat) ag, s.agents[i]? = some ag → ∃ r, Connector.GoodRoute n s.grid i ag.start ag.target r :=
+  Connector.complete_is_solution hf hall
+
+/-- the executable route test is also complete: it accepts exactly when there are no path cells (agent has not
+moved) or a valid search output exists, i.e. the depth-first search never misses a route -/
+theorem connector_route_test_iff (n : Nat) (g : Grid Int) (ag : Agent) (hs : inGrid n ag.start)
+    (hp : inGrid n ag.position) :
+    agentRouteB n g ag = true ↔
+      (ag.start = ag.position ∧ countVal g (pathVal ag.id) = 0) ∨
+      (ag.start ≠ ag.position ∧ ∃ r, Connector.validR n g (pathVal ag.id) ag.position
+        (countVal g (pathVal ag.id) - 1) ag.start [ag.start] r) := Connector.agentRouteB_iff n g ag hs hp
+
+example : solutionB 3 2 ⟨[[1, 1, 2], [0, 0, 0], [4, 4, 5]], 2,
+    [⟨0, (0, 0), (0, 2), (0, 2)⟩, ⟨1, (2, 0), (2, 2), (2, 2)⟩]⟩ = true := by decide
+end Props.C06
+
+namespace Props.C10
+/-- if the `walk_board_solvable` certificate accepts a generated board `s` together with the solved board
+recorded by `RandomWalkGenerator`, then every agent has a chain of 4-adjacent, pairwise different cells inside
+the grid from its head (= start) to its target whose cells belong to it on the recorded board and are free on the
+generated board (empty, or already holding the value of the recorded board); chains of different agents never
+share a cell.  So the agents can be routed independently: the board admits a complete solution. -/
+theorem connector_walk_board_solvable (n k : Nat) (s : State) (solved : Grid Int) (hc : Consistent n k s)
+    (h : solvedBoardB n k s solved = true) :
+    (∀ (i : Nat) ag, s.agents[i]? = some ag → ∃ r, Connector.GoodRoute n solved i ag.start ag.target r ∧
+        ∀ c ∈ r, cell s.grid c = 0 ∨ cell s.grid c = cell solved c) ∧
+    (∀ (i j : Nat) (a b a' b' : Pos) (r r' : List Pos), i ≠ j → Connector.GoodRoute n solved i a b r →
+        Connector.GoodRoute n solved j a' b' r' → ∀ c, c ∈ r → c ∉ r') :=
+  Connector.walk_board_solvable hc h
+
+example : solvedBoardB 3 2 ⟨[[2, 0, 3], [0, 0, 0], [5, 0, 6]], 0,
+    [⟨0, (0, 0), (0, 2), (0, 0)⟩, ⟨1, (2, 0), (2, 2), (2, 0)⟩]⟩ [[2, 1, 3], [0, 0, 0], [5, 4, 6]] = true := by decide
+end Props.C10
